@@ -98,6 +98,12 @@ def observations {V : Type} (acts : List (Action V)) : List V :=
 /-- the bucket `le = b`: the NUMBER of observations `o` with `o <= b` -/
 def bucketCount {V : Type} [Val V] (obs : List V) (b : V) : Nat := obs.countP (fun o => Val.le o b)
 
+/-- `_sum` is exposed unless the first bound is negative (a sum of possibly negative observations is no counter) -/
+def sumShown {V : Type} [Val V] (bounds : List V) : Bool :=
+  match bounds.head? with
+  | some b => Val.le Val.zero b
+  | none => false
+
 def lastInfo {V : Type} (acts : List (Action V)) : List (Str × Str) :=
   acts.foldl (fun cur a => match a with
     | .info val => val.filterMap (fun kv => kv.2.map (fun v => (kv.1, v)))
@@ -121,7 +127,7 @@ def seriesSamples {V : Type} [Val V] (d : Decl V) (acts : List (Action V)) : Lis
       ++ [⟨"_count".toList, [], match bs.getLast? with
             | some b => Val.ofNat (bucketCount obs b.1)
             | none => Val.zero⟩]
-      ++ (if sumExposed (bs.map (·.1)) then [⟨"_sum".toList, [], sumOf obs⟩] else [])
+      ++ (if sumShown (bs.map (·.1)) then [⟨"_sum".toList, [], sumOf obs⟩] else [])
   | .info => [⟨"_info".toList, lastInfo acts, Val.one⟩]
   | .enum states =>
     states.map (fun s => ⟨[], [(d.name, s)], if some s = currentState states acts then Val.one else Val.zero⟩)
